@@ -13,14 +13,14 @@ import (
 // Config of one exploration.
 type Config struct {
 	Name       string
-	Bound      int // preemption bound (-1: unbounded)
-	FireBudget int // timer firings the scheduler may take per execution
-	TickBudget int // ticker ticks per execution
-	MaxPoints  int // safety net against livelock (0: 20000)
-	MaxExec    int // cap on executions (0: none); hitting it makes the result non-exhaustive
+	Bound      int  // preemption bound (-1: unbounded)
+	FireBudget int  // timer firings the scheduler may take per execution
+	TickBudget int  // ticker ticks per execution
+	MaxPoints  int  // safety net against livelock (0: 20000)
+	MaxExec    int  // cap on executions (0: none); hitting it makes the result non-exhaustive
 	StateKeys  bool // prune by global state key: alternatives of a point are not explored again from a state that
 	// was already expanded with at least the same remaining preemption budget
-	Deadline   time.Duration
+	Deadline time.Duration
 	// Body builds the world and starts the scenario threads; it runs as the first managed thread.
 	Body func(x *Exec)
 	// Check judges one finished execution (called outside the scheduler).
@@ -198,26 +198,36 @@ func shorten(t []string, n int) []string {
 	return append(append([]string{}, t[:n]...), fmt.Sprintf("... (%d more)", len(t)-n))
 }
 
+// panicSite: "<thread kind>: <message> @<first function of the implementation on the stack>" (no numbers).
 func panicSite(p string) string {
 	head := p
+	rest := ""
 	if i := strings.Index(p, "\n"); i >= 0 {
-		head = p[:i]
+		head, rest = p[:i], p[i+1:]
 	}
 	// "T5(name): panic: message"
 	if i := strings.Index(head, "("); i >= 0 {
 		head = head[i+1:]
 	}
 	head = strings.Replace(head, "):", ":", 1)
+	var sb strings.Builder
+	for _, c := range head {
+		if c < '0' || c > '9' {
+			sb.WriteRune(c)
+		}
+	}
+	head = strings.ReplaceAll(sb.String(), "#-", "-")
+	head = strings.ReplaceAll(head, "producer-:", "producer:")
 	site := ""
-	if i := strings.Index(p, "\n"); i >= 0 {
-		rest := p[i+1:]
-		if j := strings.Index(rest, " <- "); j >= 0 {
-			rest = rest[:j]
+	for _, fr := range strings.Split(rest, " <- ") {
+		if k := strings.Index(fr, "("); k >= 0 && strings.Contains(fr, ".") {
+			f := fr
+			if j := strings.LastIndex(f, "("); j > 0 {
+				f = f[:j]
+			}
+			site = " @" + f[strings.LastIndex(f, "/")+1:]
+			break
 		}
-		if k := strings.Index(rest, "("); k >= 0 {
-			rest = rest[:k]
-		}
-		site = "@" + rest[strings.LastIndex(rest, "/")+1:]
 	}
 	if len(head) > 90 {
 		head = head[:90]
